@@ -6,7 +6,9 @@ import (
 	_ "verif/mc/drivers/c04"
 	_ "verif/mc/drivers/c05"
 	_ "verif/mc/drivers/c06"
+	_ "verif/mc/drivers/c08"
 	_ "verif/mc/drivers/c09"
+	_ "verif/mc/drivers/c10"
 	_ "verif/mc/drivers/c11"
 	_ "verif/mc/drivers/c14"
 	_ "verif/mc/drivers/c15"
